@@ -269,7 +269,13 @@ def run(prog, rep, tier, repo):
                             all(off(z) is not None for z in (u[2][2], u[2][3])) and tag(v) == 'index' and tag(v[1]) != 'item':
                         seen_term = True       # index-by-counter form: offsets are decidable
             if tag(t) == 'bin' and t[1] == 'Sub' and tag(t[2]) == 'index' and tag(t[3]) == 'index' and t[2][1] == t[3][1]:
-                seen_diff = True
+                if off(t[2]) is not None and off(t[3]) is not None:
+                    seen_diff = True          # x[i + a] - x[i + b] with the closure's counter i
+                elif tag(t[2][2]) == 'const' and tag(t[3][2]) == 'const' and tag(t[2][1]) in ('arg', 'deref'):
+                    # windows(2) form: |w| w[1] - w[0]
+                    seen_diff = True
+                    if (t[2][2][2], t[3][2][2]) == (1, 0):
+                        okdiff = True
         undec = []
         if seen_term and not okterm:
             problems.append('summand is not (y[i] + y[i-1])/2 * diff_x[i-1]')
